@@ -79,7 +79,7 @@ OpResult run_op(const OpSpec &op) {
     op.fout->io_rng.reseed(Rng::mix(op.io_seed, 22));
     op.fout->id = 1;
     // bound the memory a defective export can consume (a correct operation writes at most input + header + one block)
-    if (op.fout->size_cap < 0) op.fout->size_cap = (long)(op.fin ? op.fin->data.size() : 0) * 2 + (1 << 20);
+    if (op.fout->size_cap < 0) op.fout->size_cap = (long)(op.fin ? op.fin->data.size() : 0) + 4096;
     fout = sim_fopen(op.fout, "wb+", op.outbuf);
   }
   g_spy.calls.clear();
